@@ -3669,11 +3669,33 @@ void space_text()
                           __func__, __LINE__, pc->Text(), next->Text());
                   pc->SetFlagBits(PCF_FORCE_SPACE);
                }
-               // TODO:  what is the meaning of 4
+               else if (  first == '.'
+                       && (  pc->Is(CT_NUMBER)
+                          || pc->Is(CT_NUMBER_FP))
+                       && !(  language_is_set(lang_flag_e::LANG_D)
+                           && next->IsString("..")))
+               {
+                  // a number followed by '.', '.*' or '...' would become one preprocessing number
+                  LOG_FMT(LSPACE, "%s(%d): would tokenize differently: pc->Text() '%s', next->Text() '%s'\n",
+                          __func__, __LINE__, pc->Text(), next->Text());
+                  pc->SetFlagBits(PCF_FORCE_SPACE);
+               }
+               else if (  last == '.'
+                       && unc_isdigit(first)
+                       && (  pc->Len() == 1
+                          || pc->Is(CT_NUMBER)
+                          || pc->Is(CT_NUMBER_FP)))
+               {
+                  // '.' or '1.' followed by a digit would become one number
+                  LOG_FMT(LSPACE, "%s(%d): would tokenize differently: pc->Text() '%s', next->Text() '%s'\n",
+                          __func__, __LINE__, pc->Text(), next->Text());
+                  pc->SetFlagBits(PCF_FORCE_SPACE);
+               }
+               // the two texts must fit into buf
                else if (  !kw1
                        && !kw2
                        && (pc->Len() < 4)
-                       && (next->Len() < 4))
+                       && (next->Len() <= 4))
                {
                   // We aren't dealing with keywords. concat and try punctuators
                   char buf[9];
